@@ -1967,7 +1967,13 @@ dnsname_to_labels(u8 *const buf, size_t buf_len, off_t j,
 		j += 4;							\
 	} while (0)
 
-	if (name_len > 255) return -2;
+	/* "." is the root, like the empty string */
+	if (name_len == 1 && name[0] == '.') {
+		++name;
+	}
+	/* The uncompressed encoding (a length octet per label plus the root
+	 * octet) must fit in 255 octets. */
+	if (name_len + ((name_len && end[-1] == '.') ? 1 : 2) > 255) return -2;
 
 	for (;;) {
 		const char *const start = name;
@@ -1989,6 +1995,8 @@ dnsname_to_labels(u8 *const buf, size_t buf_len, off_t j,
 		} else {
 			/* append length of the label. */
 			const size_t label_len = name - start;
+			/* An empty label is only valid as the final (root) label. */
+			if (label_len == 0) return -1;
 			if (label_len > 63) return -1;
 			if ((size_t)(j+label_len+1) > buf_len) return -2;
 			if (table) dnslabel_table_add(table, start, j);
